@@ -180,7 +180,7 @@ theorem sim_prod (cfg : Cfg) (base : Nat) (sh sh' : Sh) (th th' : Th)
         unfold absSh
         simp only [rd_wr_upd cfg sh.buf (ppos + j) _ hbs]
       rw [e]
-      exact AStep.write (absSh sh) (ppos + j) (by show sh.pseq ≤ ppos + j; omega) (by show ppos + j < sh.gate + cfg.size; omega)
+      exact AStep.write (absSh sh) (ppos + j) (by show sh.pseq ≤ ppos + j; omega) (by show ppos + j < sh.cseq + cfg.size; omega)
     · left; rfl
   case w42 n ppos =>
     simp only [pcP] at hpc
@@ -208,8 +208,8 @@ theorem sim_prod (cfg : Cfg) (base : Nat) (sh sh' : Sh) (th th' : Th)
       rw [idx_eq_mod] at this
       exact this
     · intro hn
-      have h2 : sh.pseq + filled ≤ sh.gate + cfg.size := hf.2 (by omega)
-      show sh.pseq + n ≤ sh.gate + cfg.size
+      have h2 : sh.pseq + filled ≤ sh.cseq + cfg.size := hf.2 (by omega)
+      show sh.pseq + n ≤ sh.cseq + cfg.size
       omega
   case f0 start len j =>
     simp only [pcP] at hpc
@@ -222,7 +222,20 @@ theorem sim_prod (cfg : Cfg) (base : Nat) (sh sh' : Sh) (th th' : Th)
         unfold absSh
         simp only [rd_wr_upd cfg sh.buf (start + j) _ hbs]
       rw [e]
-      exact AStep.write (absSh sh) (start + j) (by show sh.pseq ≤ start + j; omega) (by show start + j < sh.gate + cfg.size; omega)
+      exact AStep.write (absSh sh) (start + j) (by show sh.pseq ≤ start + j; omega) (by show start + j < sh.cseq + cfg.size; omega)
+    · left; rfl
+  case g111c tot ms start n j =>
+    simp only [pcP] at hpc
+    obtain ⟨e1, e2, e3, e4⟩ := hpc
+    tstep_norm
+    rcases hs with ⟨h1, rfl, rfl⟩ | ⟨h1, rfl, rfl⟩
+    · right
+      have e : absSh { buf := wr sh.buf (cfg.idx (start + j)) (cfg.src (start + j)), pseq := sh.pseq, cseq := sh.cseq, gate := sh.gate, done := sh.done, pL := sh.pL, cL := sh.cL, pNote := sh.pNote, cNote := sh.cNote, gotRev := sh.gotRev }
+          = { absSh sh with cell := upd (absSh sh).cell ((start + j) % cfg.size) (cfg.src (start + j)) } := by
+        unfold absSh
+        simp only [rd_wr_upd cfg sh.buf (start + j) _ hbs]
+      rw [e]
+      exact AStep.write (absSh sh) (start + j) (by show sh.pseq ≤ start + j; omega) (by show start + j < sh.cseq + cfg.size; omega)
     · left; rfl
   all_goals (first | (simp [dataPc] at hd; done) | (simp [pcRole, roleOK] at hr; done))
 
